@@ -3,6 +3,7 @@ package checks
 // Registry maps property ids to their check entry points.
 var Registry = map[string]func(tier string) int{
 	"C01": C01,
+	"C02": C02,
 	"C03": C03,
 	"C04": C04,
 	"C08": C08,
